@@ -319,8 +319,9 @@ Definition check_snap (sn : snapshot) : bool := check_actors sn 0 sn.
    between):
    (1) an actor that was Draining/Stopping/Stopped gains no child;
    (2) when p became Stopped in this window, every actor below p in the earlier snapshot
-       (transitively, through actors of any status) that was not yet Stopping is Stopped now
-       (it was killed: the kill interrupts whatever callback it is parked in) -- unless it
+       (transitively, through actors of any status) is Stopping or Stopped now (it was killed: the
+       kill interrupts whatever callback it is parked in; or it was already inside its own
+       post_stop) -- unless it
        is alive under another supervisor afterwards (it was relinked within the window). *)
 Definition rank_of (sn : snapshot) (a : aid) : N :=
   match sget sn a with Some x => s_rank x | None => 0 end.
@@ -357,7 +358,7 @@ Definition check_pair_actor (pre post : snapshot) (a : aid) : bool :=
   | Some x, Some y =>
       (if 4 <=? s_rank x then forallb (fun c => mem c (s_children x)) (s_children y) else true)
       && (if (s_rank y =? 6) && negb (s_rank x =? 6) then
-            forallb (fun c => (5 <=? rank_of pre c) || (rank_of post c =? 6))
+            forallb (fun c => 5 <=? rank_of post c)
                     (descendants (length pre) pre post a)
           else true)
   | _, _ => true
@@ -373,7 +374,7 @@ Fixpoint check_pairs (l : list snapshot) : bool :=
   end.
 
 (* spawn results: when spawn_linked(c under p) is first observed to have returned Ok, c is in p's
-   child set (and names p), or c has been terminated as well (Stopped).  "Ok, alive, and not linked
+   child set (and names p), or c is being terminated as well (Stopping or Stopped).  "Ok, alive, and not linked
    to the requested supervisor" is the orphan the property excludes.  (Between the link inside
    start() and the quiescent point only p's own exit can remove c from p's set, and that kills c.) *)
 Definition res_ok (r : list (option bool)) (c : aid) : bool :=
@@ -384,7 +385,7 @@ Definition check_spawn_at (reqs : list (aid * aid)) (prev : list (option bool))
   forallb (fun cp =>
              let '(c, p) := cp in
              if res_ok (snd cur) c && negb (res_ok prev c) then
-               oeq (sup_of (fst cur) c) p || (rank_of (fst cur) c =? 6)
+               oeq (sup_of (fst cur) c) p || (5 <=? rank_of (fst cur) c)
              else true) reqs.
 
 Fixpoint check_spawns (reqs : list (aid * aid)) (prev : list (option bool))
